@@ -561,7 +561,10 @@ pub fn strftime(ts: time::OffsetDateTime, fmt: &str) -> Result<String, DateForma
                 output.push(lit);
             }
             Formats::Unknown => {
-                output.push_str(&fmt[fmt_pos..=cursor]);
+                // `cursor` is the byte index of the last character consumed, which may be
+                // longer than one byte: copy up to the start of the next character
+                let end = fmt_iter.peek().map_or(fmt.len(), |(next, _)| *next);
+                output.push_str(&fmt[fmt_pos..end]);
                 continue;
             }
         };
